@@ -916,7 +916,10 @@ class reactive_ops:
             params = self._reactive._params
         else:
             params = resolve_ref(self._reactive)
-        trigger = Trigger(parameters=params)
+        # The trigger also fires for the inputs of the two branches: they
+        # count among the parameters it stands for, so that expressions
+        # (and watchers) downstream keep listening to it.
+        trigger = Trigger(parameters=list(params)+xrefs+yrefs)
         if xrefs:
             def trigger_x(*args):
                 if self.value:
